@@ -68,6 +68,12 @@ def run_property(pid: str, tier: str, seed: int) -> int:
     for o in obl:
         if not o["ok"]:
             broken.append({"what": f"obligation Props/{pid}/{o['name']}.v", "detail": o["error"]})
+    chk = None
+    if tier == "thorough" and all(o["ok"] for o in obl):
+        with F.BuildLock():
+            ok_chk, chk = F.coqchk(pid)
+        if not ok_chk:
+            broken.append({"what": "coqchk re-check of the obligations", "detail": chk[-1500:]})
     audit = F.audit_sources()
     for a in audit:
         broken.append({"what": "source audit", "detail": a})
@@ -118,6 +124,8 @@ def run_property(pid: str, tier: str, seed: int) -> int:
         "traces_validated_against_impl": res.get("traces_validated_against_impl", 0),
         "explanation": getattr(mod, "EXPLANATION", ""),
     }
+    if chk is not None:
+        cov["coqchk_context_summary"] = chk
     for k, v in res.items():
         if k not in cov and k not in ("mismatches", "oracle_failures"):
             cov[k] = v
